@@ -211,8 +211,18 @@ impl RecordBatchDecoder<'_> {
 
                 let value_offsets = match mode {
                     UnionMode::Dense => {
-                        let offsets: ScalarBuffer<i32> =
-                            self.next_buffer()?.slice_with_length(0, len * 4).into();
+                        let offsets = self.next_buffer()?.slice_with_length(0, len * 4);
+                        // the offsets must be aligned for `i32`: copy them unless alignment is required
+                        let offsets = if offsets.as_ptr().align_offset(std::mem::align_of::<i32>()) == 0 {
+                            offsets
+                        } else if self.require_alignment {
+                            return Err(ArrowError::InvalidArgumentError(
+                                "Memory pointer is not aligned with the specified scalar type: offsets buffer of a dense union array".to_string(),
+                            ));
+                        } else {
+                            Buffer::from(offsets.as_slice())
+                        };
+                        let offsets: ScalarBuffer<i32> = offsets.into();
                         Some(offsets)
                     }
                     UnionMode::Sparse => None,
